@@ -1093,6 +1093,9 @@ namespace avel {
 
     [[nodiscard]]
     AVEL_FINL div_type<vec4x64u> div(vec4x64u x, vec4x64u y) {
+        // A zero divisor in one lane must not trap. The result for that lane is unspecified
+        y = blend(y == vec4x64u{0x00}, vec4x64u{0x01}, y);
+
         auto n0 = extract<0>(x);
         auto n1 = extract<1>(x);
         auto n2 = extract<2>(x);
